@@ -95,6 +95,11 @@ for short values, hashed for long ones) or a truncation of a value — such a fi
 parameters to the same field bytes, below the level the shape theorems speak about (generated facts). -/
 theorem fields_written_raw : ambiguousFields = [] := by decide
 
+/-- No key (or anything else) under `native/` is built by appending to a package-level slice with spare capacity,
+directly or through a helper that appends to its parameter: such results share one backing array and change under
+concurrent native executions (generated facts; slices declared by a composite literal have no spare capacity). -/
+theorem no_shared_backing_arrays : packageSliceAppends = [] := by decide
+
 /-- No package under `native/` other than `native/storage` imports a ledger store package. -/
 theorem no_direct_store_access : directStoreImports = [] := by decide
 
